@@ -2,6 +2,7 @@
 from __future__ import annotations
 
 import ast
+import re
 
 from .. import constfold
 from ..absint import Const, Executor, NeedAtom, Obj, Tup, explore, vkey
@@ -43,9 +44,11 @@ def run(repo, report, tier):
                 "a wildcard matches a base it should not, so a reported 'match' has more real errors than reported")
     report.guard("C01.R1", "flags", r1_flags, repo, report)
     report.guard("C01.R1", "anchored adapters", r1_anchored_full_length, repo, report)
+    report.guard("C01.R1", "minimum overlap of an adapter", r1_min_overlap_clamp, repo, report)
     report.guard("C01.R2", "Aligner.locate", r2_r3_acceptance, repo, report)
     report.guard("C01.R4", "Aligner._set_reference", r4_prefix_sums, repo, report)
     report.guard("C01.R5", "DP cell", r5_cell, repo, report)
+    report.guard("C01.R5", "first DP column", r5_first_column, repo, report)
     report.guard("C01.R6", "comparers", r6_comparers, repo, report)
     report.guard("C01.R7", "result tuple", r7_tuple, repo, report)
     report.guard("C01.R8", "match tables", r8_tables, repo, report)
@@ -873,3 +876,93 @@ def r1_anchored_full_length(repo, report):
                   expected="kwargs['min_overlap'] = len(sequence) on every path, then super().__init__(sequence, *args, **kwargs)", loc=repo.loc(init), cases=len(rows),
                   why=str(bad[0][0]) if bad else "")
     report.floor("C01.R1", "anchored adapter classes (allows_partial_matches = False)", n, 2)
+
+
+def r1_min_overlap_clamp(repo, report):
+    """The minimum overlap in force for an adapter is min(requested, len(adapter)): not larger (an adapter shorter than
+    -O could never be found, not even as an exact copy) and not smaller (matches shorter than the documented minimum
+    would be reported).  SingleAdapter.__init__ stores it; the aligners and the k-mer finder are built from that store."""
+    from ..repo import expand, nsrc
+    c, init = repo.need_method("SingleAdapter", "__init__")
+    ps = params(init)
+    mo = [p_ for p_ in ps if "overlap" in p_]
+    st = [n for n in ast.walk(init) if isinstance(n, (ast.Assign, ast.AnnAssign)) and any(chain(t) == "self.min_overlap" for t in (n.targets if isinstance(n, ast.Assign) else [n.target]))]
+    if len(mo) != 1 or len(st) != 1:
+        raise Unrecognised("SingleAdapter.__init__: the min_overlap parameter / its one store in self.min_overlap not found", repo.loc(init))
+    v = expand(init, st[0].value)
+    ok = isinstance(v, ast.Call) and chain(v.func) == "min" and len(v.args) == 2 and not v.keywords and sorted(nsrc(src(a)) for a in v.args) == sorted([mo[0], nsrc("len(self.sequence)")])
+    report.ob("C01.R1", "SingleAdapter: min_overlap in force is min(requested, adapter length)", ok, facts={"stored": src(v)}, expected=f"self.min_overlap = min({mo[0]}, len(self.sequence))", loc=repo.loc(st[0]),
+              why="" if ok else f"self.min_overlap = {src(v)}: an adapter shorter than the requested overlap can no longer be found, or matches shorter than the documented minimum are accepted")
+
+
+def r5_first_column(repo, report):
+    """The column the DP starts from: score, cost and origin of cell i for the four combinations of "the adapter's start
+    may be skipped" (start_in_reference) and "the read's start may be skipped" (start_in_query).  A free start of the
+    ADAPTER makes the skipped adapter bases free (score 0, cost of the read part only); a free start of the READ alone
+    does not: the i skipped adapter bases are deletions (score i * deletion score, cost i)."""
+    c, fn = repo.need_method("Aligner", "locate")
+
+    def stores_column(st):
+        return any(isinstance(n, ast.Assign) and isinstance(n.targets[0], ast.Attribute) and n.targets[0].attr in ("score", "cost", "origin") and isinstance(n.targets[0].value, ast.Subscript) for n in ast.walk(st))
+
+    frag = []
+    for st in fn.body:
+        if isinstance(st, ast.With):
+            break  # the nogil block holds the column loop proper
+        if isinstance(st, (ast.If, ast.For)) and stores_column(st):
+            frag.append(st)
+    if not frag:
+        raise Unrecognised("Aligner.locate: initialisation of the first column not found", repo.loc(fn))
+    colname = None
+    for n in ast.walk(frag[0]):
+        if isinstance(n, ast.Assign) and isinstance(n.targets[0], ast.Attribute) and isinstance(n.targets[0].value, ast.Subscript):
+            colname = chain(n.targets[0].value.value)
+            break
+    names = {x.id for st in frag for x in ast.walk(st) if isinstance(x, ast.Name)}
+    bounds = sorted({src(l.iter) for st in frag for l in ast.walk(st) if isinstance(l, ast.For)})
+    if len(bounds) != 1 or not re.fullmatch(r"range\((\w+) \+ 1\)", bounds[0]):
+        raise Unrecognised(f"first column: loops {bounds} are not all 'range(m + 1)'", repo.loc(frag[0]))
+    mname = re.fullmatch(r"range\((\w+) \+ 1\)", bounds[0]).group(1)
+    minn = [n_ for n_ in names if n_ not in (colname, mname, "self", "range", "min", "max") and not any(isinstance(l, ast.For) and isinstance(l.target, ast.Name) and l.target.id == n_ for st in frag for l in ast.walk(st))]
+    if len(minn) != 1:
+        raise Unrecognised(f"first column: the name of the first column index not identified {sorted(minn)}", repo.loc(frag[0]))
+    env = {"self": Obj("self", nonnull=True), mname: Obj("M"), minn[0]: Obj("J0"), colname: Obj("COLUMN", nonnull=True)}
+    rows = explore(repo, frag, env, inline=False)
+    report.saw(function="Aligner.locate (first column)", valuations=len(rows))
+    I = "item(range(M+1))"
+
+    def canon(t):
+        return "*".join(sorted(t.replace(" ", "").split("*")))
+
+    bad = []
+    n = 0
+    for r in rows:
+        if any(k.startswith("loop-nonempty") and v is False for k, v in r.valuation.items()):
+            continue
+        sr, sq = r.valuation.get("truthy:self.start_in_reference"), r.valuation.get("truthy:self.start_in_query")
+        d = next((v for k, v in r.valuation.items() if k.replace(" ", "") in (f"sign:J0-{I}", f"sign:{I}-J0")), None)
+        if d is not None and any(k.replace(" ", "") == f"sign:{I}-J0" for k in r.valuation):
+            d = -d
+        got = {}
+        for e in r.effects:
+            if e[0] == "store" and e[1].startswith(f"COLUMN[{I}]."):
+                got[e[1].rsplit(".", 1)[1]] = canon(str(e[2]))
+        if sr is None or sq is None:
+            bad.append({"path": r.describe()["valuation"], "problem": "initialisation does not depend on both start flags"})
+            continue
+        # acceptable values given the sign of J0 - i (None = not compared on this path, so the stored text must be independent of it)
+        bigger = {1: ["J0"], -1: [I], 0: ["J0", I], None: []}[d]      # max(i, J0)
+        smaller = {1: [I], -1: ["J0"], 0: ["J0", I], None: []}[d]     # min(i, J0)
+        diff = f"J0-{I}"
+        want = {
+            "score": ["0"] if sr else [canon(f"{I}*self._deletion_score")],
+            "cost": ([canon("J0*self._deletion_cost")] if not sq else [canon(f"{x}*self._deletion_cost") for x in smaller]) if sr else ([canon(f"{I}*self._deletion_cost")] if sq else [canon(f"{x}*self._deletion_cost") for x in bigger]),
+            "origin": (([diff] if sq else ({1: ["0"], 0: ["0", diff], -1: [diff], None: []}[d])) if sr else (({1: [diff], 0: ["0", diff], -1: ["0"], None: []}[d]) if sq else ["0"])),
+        }
+        n += 1
+        for f_ in ("score", "cost", "origin"):
+            if got.get(f_) not in want[f_]:
+                bad.append({"start_in_reference": sr, "start_in_query": sq, "sign(J0 - i)": d, "field": f_, "stored": got.get(f_), "expected one of": want[f_]})
+    report.ob("C01.R5", "Aligner.locate: first DP column", not bad and n >= 8, facts={"paths": n, "problems": bad[:3]}, cases=n, loc=repo.loc(frag[0]),
+              expected="score 0 iff the adapter's start may be skipped, else i * deletion score; cost/origin per the four documented cases",
+              why=(f"with start_in_reference={bad[0].get('start_in_reference')}, start_in_query={bad[0].get('start_in_query')} cell i gets {bad[0].get('field')} = {bad[0].get('stored')}, expected {bad[0].get('expected one of')}: skipped adapter bases are not charged (or charged although free), so scores of partial matches at the read start are wrong" if bad else ""))
